@@ -240,6 +240,25 @@ CHECKS = {
         design="§3 C19"),
 }
 
+# added in round 2/3 (DESIGN 9, 10): further axes each check enumerates
+ADDENDA = {
+    "C01": "Streaming bit regions with greedy tails and rotate groups >= 3 are included; the thorough tier also takes every value the reference reads from an accepted string over S6^<=5.",
+    "C03": "Repeaters built with discard=True (term kind Discard) are part of the term space.",
+    "C04": "Const(value, subcon) over every T1/T2 subcon, FocusedSeq with expression selectors, and every compile() history of length <= 2 over a family of same-layout constructs (all ordered pairs, same object twice, compiled instance recompiled).",
+    "C05": "The construct's own n-byte encoding must parse (advancing by n); zero-size look-ahead/seeking members and discarding repeaters are included; thorough measures every value read from every n-byte string (n <= 8 over shrinking alphabets).",
+    "C06": "Shapes whose modulus, pad length, width, rotate amount/group, xor key, pointer offset or seek whence come from the data at signed boundary values; repeaters with discard=True; GreedyRange/RepeatUntil over lazy elements.",
+    "C07": "Scope chains include Array/GreedyRange built with discard=True.",
+    "C09": "Pointer with an explicit stream= (from the context, and the root stream from inside a sub-stream), and Union selectors evaluated at parse time to None / an index / a name.",
+    "C12": "Both sides of every law are also compared as a Struct member (value, None, key absent), a Sequence item and an Array element.",
+    "C13": "Validators, Mapping and Enum over fields that make up their own value (Default, Const, Rebuild), built from None and as absent Struct keys; label objects carrying a foreign integer or name.",
+    "C14": "Covered regions of length 0 (counted region with n = 0, RawCopy(Pass)).",
+    "C15": "Every transform family is also placed behind 0..8 header bytes: Struct member, stream entry points at an offset, consecutive Prefixed regions, Array of FixedSized regions.",
+    "C16": "Access alphabet includes get() and negative indices; member kinds include build-from-None members, count-then-unsized and prefix-decides elements.",
+    "C17": "Entry-point agreement at stream offsets includes end-relative positioning (OffsettedEnd, negative Pointer, Seek whence 2) inside sub-streams.",
+    "C18": "Unbuildable values include one that overflows one-byte length prefixes (failure inside an auxiliary field).",
+    "C19": "enum: keys are interpreted (member name compared with the parsed label); FlagsEnum over every width 1,2,3,4,8 x byte order with a flag in every byte; all ordered pairs of members that declare something schema-global in one schema.",
+}
+
 PENDING_REASON = "check not built yet in this round (see DESIGN.md §7 build order); it will be decided by the same bounded-exhaustive engine"
 
 
@@ -260,7 +279,7 @@ def main():
             "evidence_file": "/verif/evidence/%s.json" % pid,
             "replay_cmd_template": "./run replay {path}",
             "engine": "mc-explorer",
-            "level_claimed": {"category": "model_checking", "text": c["text"], "design_ref": c["design"]},
+            "level_claimed": {"category": "model_checking", "text": c["text"] + (" " + ADDENDA[pid] if pid in ADDENDA else ""), "design_ref": c["design"]},
             "level_note": c["note"],
             "technique": c["technique"],
         })
